@@ -2,6 +2,7 @@ import AsyncVerif.Proofs.FaithfulTools
 import AsyncVerif.Proofs.KindFreeTools
 import AsyncVerif.Proofs.Release
 import AsyncVerif.Impl.Aggregations
+import AsyncVerif.Proofs.Select
 /-! `Faithful`, `KindFree` and release facts for the aggregation and merge loops. -/
 namespace AsyncVerif
 
@@ -86,11 +87,51 @@ theorem kf_collectKeyed (fn : Option Nat) (s : Nat) (fuel : Nat) : ∀ acc, Kind
   | zero => intro acc; unfold collectKeyed; kfree
   | succ fuel ih => intro acc; unfold collectKeyed; kfree [ih, kf_keyOf fn]
 
-theorem faithful_nBest (largest : Bool) (n : Nat) (fn : Option Nat) (s fuel : Nat) : Faithful (nBest largest n fn s fuel) := by
-  unfold nBest; faith [faithful_collectKeyed fn s fuel, faithful_sortKeyed]
+theorem faithful_heapifyV (c : Sel.Cfg) (first : List (Val × Val)) : Faithful (liftExc (Sel.heapifyV c first)) := by
+  apply faithful_liftExc
+  intro e h
+  have := Sel.heapifyV_error c first _ h
+  cases this
 
-theorem kf_nBest (largest : Bool) (n : Nat) (fn : Option Nat) (s fuel : Nat) : KindFree (nBest largest n fn s fuel) := by
-  unfold nBest; kfree [kf_collectKeyed fn s fuel, kf_liftExc]
+theorem faithful_acceptV (c : Sel.Cfg) (st : List Sel.VE × Int) (k x : Val) : Faithful (liftExc (Sel.acceptV c st k x)) := by
+  apply faithful_liftExc
+  intro e h
+  have := Sel.acceptV_error c st k x _ h
+  cases this
+
+theorem faithful_nbFirst (fn : Option Nat) (s : Nat) : ∀ k acc, Faithful (nbFirst fn s k acc) := by
+  intro k
+  induction k with
+  | zero => intro acc; unfold nbFirst; faith
+  | succ k ih => intro acc; unfold nbFirst; faith [ih, faithful_keyOf fn]
+
+theorem kf_nbFirst (fn : Option Nat) (s : Nat) : ∀ k acc, KindFree (nbFirst fn s k acc) := by
+  intro k
+  induction k with
+  | zero => intro acc; unfold nbFirst; kfree
+  | succ k ih => intro acc; unfold nbFirst; kfree [ih, kf_keyOf fn]
+
+theorem faithful_nbScan (c : Sel.Cfg) (fn : Option Nat) (s : Nat) (fuel : Nat) : ∀ st, Faithful (nbScan c fn s st fuel) := by
+  induction fuel with
+  | zero => intro st; unfold nbScan; faith
+  | succ fuel ih => intro st; unfold nbScan; faith [ih, faithful_keyOf fn, faithful_acceptV]
+
+theorem kf_nbScan (c : Sel.Cfg) (fn : Option Nat) (s : Nat) (fuel : Nat) : ∀ st, KindFree (nbScan c fn s st fuel) := by
+  induction fuel with
+  | zero => intro st; unfold nbScan; kfree
+  | succ fuel ih => intro st; unfold nbScan; kfree [ih, kf_keyOf fn, kf_liftExc]
+
+theorem faithful_nBestAlgo (c : Sel.Cfg) (n : Nat) (fn : Option Nat) (s fuel : Nat) : Faithful (nBestAlgo c n fn s fuel) := by
+  unfold nBestAlgo; faith [faithful_nbFirst fn s, faithful_nbScan c fn s fuel, faithful_heapifyV]
+
+theorem kf_nBestAlgo (c : Sel.Cfg) (n : Nat) (fn : Option Nat) (s fuel : Nat) : KindFree (nBestAlgo c n fn s fuel) := by
+  unfold nBestAlgo; kfree [kf_nbFirst fn s, kf_nbScan c fn s fuel, kf_liftExc]
+
+theorem faithful_nBest (largest : Bool) (n : Nat) (fn : Option Nat) (s fuel : Nat) : Faithful (nBest largest n fn s fuel) :=
+  faithful_nBestAlgo _ n fn s fuel
+
+theorem kf_nBest (largest : Bool) (n : Nat) (fn : Option Nat) (s fuel : Nat) : KindFree (nBest largest n fn s fuel) :=
+  kf_nBestAlgo _ n fn s fuel
 
 theorem faithful_heads (fn : Option Nat) (srcs : List Nat) : ∀ idx acc, Faithful (heads fn srcs idx acc) := by
   induction srcs with
